@@ -567,7 +567,7 @@ pub fn run_c10(ctx: &Ctx) -> Report {
                 alphabet.len(),
                 |s, i| bfs_step(s, &alphabet[i]),
                 |s| key_of(&s.sc, &[hash64(&s.rf)]),
-                100_000,
+                30_000,
             );
             sub.states += out.states.len() as u64;
             let paths: Vec<Vec<Op>> = (0..out.states.len()).map(|i| out.path_to(i).iter().map(|k| alphabet[*k]).collect()).collect();
@@ -1002,7 +1002,7 @@ pub fn run_c11(ctx: &Ctx) -> Report {
             alphabet.len(),
             |s, i| bfs_step(s, &alphabet[i]),
             |s| key_of(&s.sc, &[hash64(&s.rf)]),
-            3_000_000,
+            if chans.len() == 1 { 60_000 } else { 600_000 },
         );
         let mut sub = Sub::new(
             &name,
@@ -1085,7 +1085,7 @@ pub fn run_c11(ctx: &Ctx) -> Report {
             alphabet.len(),
             |s, i| bfs_step(s, &alphabet[i]),
             |s| key_of(&s.sc, &[hash64(&s.rf)]),
-            200_000,
+            30_000,
         );
         let mut sub = Sub::new(
             "repetition_probes",
